@@ -94,6 +94,11 @@ func runOne10ColMode(i int, cfg *Config, seed int64, reload bool) (obs Obs10) {
 		exts[x] = body
 		svcExts = append(svcExts, x)
 	}
+	if len(svcExts) > 0 && rng.Intn(4) == 0 { // a repeated entry in service::extensions: still one component (see c10.go)
+		dup := svcExts[rng.Intn(len(svcExts))]
+		at := rng.Intn(len(svcExts) + 1)
+		svcExts = append(svcExts[:at], append([]string{dup}, svcExts[at:]...)...)
+	}
 	sect := func(ids map[component.ID]component.Config) map[string]any {
 		m := map[string]any{}
 		for id := range ids {
